@@ -46,10 +46,10 @@ def positional_map(F, body, names, src, inline=None, x="x", mode="int"):
                     node = F.closures.get(f[1]) if isinstance(f, tuple) and f[0] == "closure" and isinstance(f[1], str) else None
                     if node is not None:
                         v = t.apply(("closure", node, dict(getattr(t, "closure_envs", {}).get(f[1], {}))), [v])
-                    elif isinstance(f, tuple) and f[0] == "fn":
-                        v = t.apply(f, [v])
                     else:
-                        return None
+                        if isinstance(f, tuple) and len(f) == 2 and f[0] == "P":
+                            f = f[1]
+                        v = t.apply(f, [v])      # a function item or a function-valued parameter
                 return v
         return None
     pushes = [e for e in t.events if e.callee.endswith("::push")]
@@ -200,10 +200,10 @@ def elementwise(F, t, value, S, x="x"):
         try:
             if node is not None:
                 v = t.apply(("closure", node, dict(getattr(t, "closure_envs", {}).get(f[1], {}))), [v])
-            elif isinstance(f, tuple) and f[0] in ("fn", "closure"):
-                v = t.apply(f, [v])
             else:
-                return None
+                if isinstance(f, tuple) and len(f) == 2 and f[0] == "P":
+                    f = f[1]
+                v = t.apply(f, [v])
         except Unsupported:
             return None
     return v
